@@ -410,8 +410,11 @@ class ResolveAnchorIds(Transform):
                 inner_node = nodes.inline(
                     "", "", classes=["xref", "myst"] + refnode["classes"]
                 )
+                # on the pending_xref itself, as for the other link types: ``replace_self``
+                # carries them over to whatever node the resolver builds,
+                # whereas most resolvers only copy the children of the inner node
                 for attr in ("ids", "names", "dupnames"):
-                    inner_node[attr] = refnode[attr]
+                    pending[attr] = refnode[attr]
                 inner_node += refnode.children
                 pending += inner_node
                 refnode.parent.replace(refnode, pending)
